@@ -76,10 +76,18 @@ Record obs := mkobs {
    K = length data spikes given here (features, templates) periodically; only get_depths is observed. *)
 (* InSparse: a dataset with template_ind.npy (sparse templates): the column table; observed: did the two
    get_amplitudes_true calls raise, and what templates_channels / clusters_channels returned. *)
+(* InHist (stage 6): a HISTORY on one loaded model: the stored spike templates st, and the successive in-memory
+   states (spike_clusters, amplitudes) of the model -- state 0 = as loaded, then one state after every caller-side
+   update of model.spike_clusters (in place or by re-assigning the attribute; merges, splits, moves, renumberings:
+   the set of ids in use changes) and / or of model.amplitudes.  Observed after every state: templates_amplitudes and
+   clusters_amplitudes (None = the property raised).  By C09_mean_amps (for ALL id / amplitude lists) each state is
+   an instance of the same theorem: the result is a function of the arrays the model holds NOW. *)
 Inductive input := InModel (i : inp) | InBig (pos : mat) (data : list mat) (cols : mat) (st : list Z) (n : Z)
-                 | InSparse (cols : mat) | InBad.
+                 | InSparse (cols : mat) | InBad
+                 | InHist (st : list Z) (states : list (list Z * list Z)).
 Inductive observed := ObsAll (o : obs) | ObsBig (o : option (option (list tok)))
-                    | ObsSparse (amp_t_raised amp_c_raised : bool) (chan_t chan_c : option (list Z)) | ObsCrash.
+                    | ObsSparse (amp_t_raised amp_c_raised : bool) (chan_t chan_c : option (list Z)) | ObsCrash
+                    | ObsHist (l : list (option (list tok) * option (list tok))).
 Record case := { cid : Z; cin : input; cobs : observed }.
 
 Definition flag (code : Z) (ok : bool) : list Z := if ok then [] else [code].
@@ -207,8 +215,24 @@ Definition check_big (pos : mat) (data : list mat) (cols : mat) (st : list Z) (n
   | _, _ => [3]
   end.
 
+(* one state of a history: both mean-amplitude properties against the model on the arrays of THAT state *)
+Definition hist_regime (st : list Z) (states : list (list Z * list Z)) : bool :=
+  forallb (fun s => 0 <=? s) st &&
+  forallb (fun sa => forallb (fun s => 0 <=? s) (fst sa) && forallb (small B24) (snd sa) &&
+                     Nat.eqb (length (fst sa)) (length st) && Nat.eqb (length (snd sa)) (length st)) states.
+Definition check_hist (st : list Z) (states : list (list Z * list Z))
+                      (l : list (option (list tok) * option (list tok))) : list Z :=
+  if negb (hist_regime st states) then [3] else
+  let g := all2b (fun sa o => oeq closel (mean_amps_Q st (snd sa)) (fst o) &&
+                              oeq closel (mean_amps_Q (fst sa) (snd sa)) (snd o)) states l in
+  flag 1 g ++ flag 24 g.
+
 Definition check (c : case) : list Z :=
   match cin c, cobs c with
+  | InHist _ _, ObsCrash => [1; 20]
+  | InHist st states, ObsHist l => check_hist st states l
+  | InHist _ _, _ => [3]
+  | InModel _, ObsHist _ => [3]
   | InBad, _ => [1; 20]
   | InModel _, ObsCrash => [1; 20]
   | InBig _ _ _ _ _, ObsCrash => [1; 20]
